@@ -129,7 +129,7 @@ func (e *env) evalC(c caseC) {
 		r.Violate("fees:security-fee-not-ceil", fmt.Sprintf("%s: security fee %d, reference ceil(rate*relayer fee)=%s", c, fees.SecurityFee, security), rec)
 	}
 	if c.RC == "0.3" && c.RS == "2.5" && (c.Mult == "1.000001" || c.Mult == "0.000001") && c.Gas != "1" {
-		r.Sample(map[string]interface{}{"part": "c", "case": c.String(), "fees": []uint64{fees.RelayerFee, fees.CommunityFee, fees.SecurityFee}})
+		e.sample("c", map[string]interface{}{"part": "c", "case": c.String(), "fees": []uint64{fees.RelayerFee, fees.CommunityFee, fees.SecurityFee}})
 	}
 }
 
